@@ -35,7 +35,7 @@ OMIT = {"$py": "omit"}
 _FIELD_POOL = ["f", "val", "g_1", "fld", "x"]
 _FIELD2_POOL = ["e", "aux", "h_2", "oth", "y"]
 _LETTERS = ["a", "k", "zq", "m", "b"]
-_UNI_POOL = ["ä€\U0001f600", "Ω中ß", "éЖ\U0001f40d", "ñก☃", "üא♥"]
+_UNI_POOL = ["ä€\U0001f600", "Ω中ß\U0001d11e", "éЖ\U0001f40d", "ñก☃\U00020000", "üא♥\U0001f680"]
 _HOST_POOL = ["a.b", "example.com", "h.io", "x-y.org", "t.de"]
 
 
